@@ -246,7 +246,8 @@ def sym_np():
         pi = math.pi
         complex128 = complex
         stack = staticmethod(np.stack)
-        concatenate = staticmethod(np.concatenate)
+        concatenate = staticmethod(lambda parts, axis=0, dtype=None, **k: np.concatenate([np.asarray(p_, dtype=object) for p_ in parts], axis=axis))
+        add = staticmethod(lambda a, b, dtype=None, **k: a + b)
         dtype = staticmethod(np.dtype)
         newaxis = None
         binary_repr = staticmethod(np.binary_repr)
